@@ -128,9 +128,16 @@ class SymDec:
             if L <= k:
                 return self
             cut = L - k
-            if not self.has_dot or cut > self.prec:
-                raise HarnessError('SymDec: slice cuts into the integer part')
             c = ctx()
+            if not self.has_dot or cut > self.prec:
+                # the cut removes integer digits (and the '.'): the reader sees only the leading digits
+                drop = cut if not self.has_dot else cut - 1          # the '.' itself is one character
+                q = c.fresh('cutq', 'int')
+                r = c.fresh('cutr', 'int')
+                pw = 10 ** drop
+                c.axiom(self.N.t == q * pw + r)
+                c.axiom(z3.And(r >= 0, r < pw, q >= 0))
+                return self._clone(N=SI(q), prec=0, width=self.width - drop, has_dot=False, maxlen=None)
             q = c.fresh('cutq', 'int')
             r = c.fresh('cutr', 'int')
             p = 10 ** cut
